@@ -54,6 +54,9 @@ CLAIMED = {
  "C15": ("stateful property-based testing (model-based command histories) against the adlt remote binary over websocket; parser progress owned through the adlt_verif schedule hook",
          "Generated-history exploration: command sequences from a grammar with valid/invalid forms are sent to a server process rebuilt from the working tree; a model of {open, mode, live ids} derived from the replies predicts each reply kind; exactly-one-reply, no stray reply, connection/process survival and close/open liveness are asserted after every history.",
          "one server process per history; reply timeout 20 s (60 s close) counts as violation; interleavings with parsing are sampled via the throttle schedule, not enumerated", "4/C15"),
+ "C16": ("property-based testing: (A) model-based histories on the incremental stream index (library); (B) generated sessions against the adlt remote binary with a reference filtered sequence as oracle",
+         "Generated-history exploration: A drives process_stream_new_msgs like the server loop with generated batching/chunking/window changes and checks the index invariant and bounded progress after every call; B runs generated logs, filter sets, windows, window changes, search paging and lookups over websocket (arrival varied through pause/resume and the parser throttle hook) and compares every delivered frame with the reference.",
+         "queries issued while parsing is still running: only prefix-correctness; time lookups only on strictly increasing times; delivery waits are bounded (8 s) and a missing delivery is a violation", "4/C16"),
 }
 PENDING = {}
 def main():
